@@ -69,19 +69,32 @@ def step_numeric_on(U, net, values, opts, zero_d):
     return out
 
 
-def step_symbolic(uspec, ops, refs, values, opts, kind):
-    """Steps with caller symbols, then evaluates the symbolic next states at `values` through a
-    function assembled here from those symbols (no dependence on to_function's layout)."""
+def step_symbolic(uspec, ops, refs, values, opts, kind, engine_made=False, what=""):
+    """Steps with caller symbols (or, `engine_made`, with the symbols the engine creates from
+    the element names), then evaluates the symbolic next states at `values` through a function
+    assembled here from those symbols (no dependence on to_function's layout)."""
     import casadi as cs
 
     U, net = dyn.build(uspec, ops)
     eng = make_engine(kind)
-    ic = dyn.symbolic_init(U, refs, kind.upper())
+    ic = None if engine_made else dyn.symbolic_init(U, refs, kind.upper())
     net.step(init_conditions=ic, engine=eng, **opts)
-    ins, args = [], []
+    ins, args, seen = [], [], {}
     for r in sorted(values):
+        el = U.obj(r)
         for var in sorted(values[r]):
-            ins.append(ic[U.obj(r)][var])
+            if engine_made:
+                held = next(g[var] for g in (el.states, el.actions, el.disturbances) if g and var in g)
+                prim = cs.symvar(held)
+                sym = cs.vcat(prim) if kind == "sx" else prim[0]
+                for x in prim:  # distinct elements must get distinct variables, whatever they are called
+                    if x.__hash__() in seen:
+                        raise Violation("C14/variables-aliased-by-name", f"{what}: {r}.{var} and {seen[x.__hash__()]} "
+                                        f"are the same {kind.upper()} symbol ({x})")
+                    seen[x.__hash__()] = f"{r}.{var}"
+            else:
+                sym = ic[el][var]
+            ins.append(sym)
             args.append(np.array(values[r][var], dtype=float))
     outs, keys = [], []
     for el, ns in net.next_states.items():
@@ -136,7 +149,9 @@ def check_share(uspec, topo, values, opts, nxt, res: Result, what: str):
             q0 = values[l]["rho"][0] * values[l]["v"][0] * s["lam"]
             inflow = (float(nxt[l]["rho"][0]) - values[l]["rho"][0]) * s["lam"] * s["L"] / T + q0
             expected = s["turnrate"] / sb * total
-            if not abs(inflow - expected) <= 1e-6 * max(1.0, abs(total)):
+            # the inflow is recovered through a cancellation: tolerance relative to the magnitudes involved
+            mag = 1.0 + abs(total) + abs(q0) + abs(values[l]["rho"][0]) * s["lam"] * s["L"] / T + abs(float(nxt[l]["rho"][0])) * s["lam"] * s["L"] / T
+            if not abs(inflow - expected) <= 1e-9 * mag:
                 raise Violation(
                     "C14/turnrate-share:" + ("one-entering" if len(ins) == 1 else "several-entering"),
                     f"{what}: node {n} ({len(ins)} entering, {len(outs)} leaving): link {l} receives {inflow:.6f} "
@@ -151,7 +166,7 @@ def execute(trace: dict) -> Result:
     uspec, cfg = trace["universe"], trace["cfg"]
     topo = cfg["topology"]
     refs = dyn.element_refs(topo)
-    values = dyn.gen_values(cfg["vals"], uspec, refs)
+    values = dyn.gen_values(cfg["vals"], uspec, refs, edge=cfg.get("edge", False))
     opts = cfg["opts"]
     zero_d = cfg["zero_d"]
     canon_ops = dyn.canonical_ops(topo)
@@ -181,6 +196,10 @@ def execute(trace: dict) -> Result:
                     base_sym[kind] = step_symbolic(uspec, canon_ops, refs, values, opts, kind)
                 compare(base_sym[kind], step_symbolic(u2, var["build"], refs, values, opts, kind), what + f" ({kind})")
                 res.probes[f"variant_compared:{kind}"] += 1
+                if var.get("engine_made"):
+                    compare(base_sym[kind], step_symbolic(u2, var["build"], refs, values, opts, kind, True, what),
+                            what + f" ({kind}, engine-made symbols)")
+                    res.probes[f"variant_compared:{kind}:engine-made-symbols"] += 1
             if var.get("inplace") and (var.get("rename") or var.get("scale")):
                 # the same renaming / scaling applied *in place* to the already stepped canonical
                 # network objects, which are then stepped again from the same values
@@ -193,6 +212,26 @@ def execute(trace: dict) -> Result:
                 again = step_numeric_on(U0, net0, values, opts, zero_d)
                 compare(base, again, what + " applied in place to the used canonical network (numpy)")
                 res.faults["inplace_transform_after_step"] += 1
+            if var.get("shared") and not var.get("rename") and not var.get("scale"):
+                # the variant's construction calls made on a SECOND network over the canonical
+                # network's own element objects (elements may belong to several networks); both
+                # networks are then stepped alternately
+                import sym_metanet as M
+
+                U0, net0 = used
+                net_b = M.Network(name="second")
+                for o in var["build"]:
+                    if o["op"] != "early_step" and not o.get("fault") and not o.get("malformed"):
+                        dyn.apply_build_op(net_b, U0, o)
+                    elif o.get("counts"):
+                        try:
+                            dyn.apply_build_op(net_b, U0, o)
+                        except Exception:
+                            pass
+                        dyn.complete_missing(net_b, U0, o)
+                compare(base, step_numeric_on(U0, net_b, values, opts, zero_d), what + " on a second network sharing the elements (numpy)")
+                compare(base, step_numeric_on(U0, net0, values, opts, zero_d), what + ": canonical network re-stepped after the second one (numpy)")
+                res.faults["elements_shared_by_two_networks"] += 1
             if var.get("rename"):
                 res.faults["rename:" + var["rename_mode"]] += 1
             if var.get("scale"):
@@ -337,9 +376,11 @@ def generate(prop: str, run_seed: int, tier: str = "quick") -> dict:
         if rng.random() < (0.25 if tier == "quick" else 0.5):
             also.append(rng.choice(["sx", "mx"]))
         var["also"] = also
+        var["engine_made"] = bool(also) and rng.random() < 0.6
         var["inplace"] = rng.random() < 0.5
+        var["shared"] = rng.random() < 0.5
         variants.append(var)
-    cfg = {"topology": topo, "vals": rng.getrandbits(32), "opts": opts,
+    cfg = {"topology": topo, "vals": rng.getrandbits(32), "opts": opts, "edge": rng.random() < 0.08,
            "zero_d": True if (dyn.has_merging_ramp(topo, U) and "delta" in opts) else rng.random() < 0.3}
     return {"prop": prop, "run_seed": run_seed, "universe": U, "cfg": cfg, "ops": variants}
 
@@ -356,6 +397,8 @@ def simplify_op(var: dict):
         yield dict(var, also=[])
     if var.get("inplace"):
         yield dict(var, inplace=False)
+    if var.get("shared"):
+        yield dict(var, shared=False)
     if var.get("ic_order") is not None:
         yield dict(var, ic_order=None)
     b = var["build"]
@@ -386,7 +429,8 @@ TIERS = {
         "quick": {"runs": 12000, "selftest": 16, "chunk": 200, "wall_cap": 900, "run_timeout": 120},
         "thorough": {"runs": 400000, "selftest": 64, "chunk": 1000, "wall_cap": 3300, "run_timeout": 120,
                      "expect_probes": ["schedule_permutation", "turnrate_scale", "inplace_transform_after_step",
-                                       "step_during_construction", "failed_call_then_retry", "failed_call_not_retried", "rename:fresh", "rename:dup", "rename:permute",
+                                       "step_during_construction", "failed_call_then_retry", "failed_call_not_retried",
+                                       "elements_shared_by_two_networks", "rename:fresh", "rename:dup", "rename:permute",
                                        "variant_compared:numpy", "variant_compared:sx", "variant_compared:mx",
                                        "share_checked:one-entering", "share_checked:several-entering", "topology:merge",
                                        "topology:bifurcation_1in", "topology:bifurcation_multi_in", "topology:interior_ramp"]},
